@@ -476,6 +476,21 @@ def _release_after_send():
                    "script": [["release", who, (who + 1) % 3, ln], ["lookup_addr", (who + 1) % 3, ids[who]]], "concurrent": False, "loss": "D", "timeout": 7.5}
 
 
+def _addresses_swapped_between_sends():
+    """a node sends to an ID; that ID and another one release and re-join in the opposite order, so that the other ID now
+    holds the address the first one had; the node sends to both IDs again: each message arrives at the ID it was sent to"""
+    ids = [11, 22, 44, 66]
+    nodes = [{"id": i, "kind": "mesh" if n % 2 else "meshnm", "offset": 400 * n, "mcu": {"spi": 50, "jit": 0, "seed": n, "poll": 100}} for n, i in enumerate(ids)]
+    for s_ in range(4):
+        for x in range(4):
+            for y in range(4):
+                if len({s_, x, y}) < 3:
+                    continue
+                script = [["send", s_, "of", x, 65, "aa01"], ["release", x], ["release", y], ["rejoin", y], ["rejoin", x],
+                          ["send", s_, "of", x, 65, "bb02"], ["send", s_, "of", y, 1, "cc03"], ["lookup_addr", s_, ids[x]]]
+                yield {"nodes": nodes, "master_mcu": {"spi": 50, "jit": 0, "seed": 7, "poll": 100}, "script": script, "concurrent": False, "loss": "D", "timeout": 7.5}
+
+
 def _repeated_lookup(reps):
     """six nodes join one after the other; the node behind a relay (and, as a control, a level-1 node) asks the SAME
     question several times with 0..4 downstream frames through the relay in between - the relay's 2-bit packet ID
@@ -565,14 +580,16 @@ def _parts(tier):
                 Part("only-one-parent-left", "enum", _only_one_parent_left, exhaustive=True),
                 Part("nobody-but-a-level-4-node", "enum", _nobody_but_a_level4_node, exhaustive=True),
                 Part("repeated-identical-lookups", "enum", lambda: _repeated_lookup(4), exhaustive=True),
-                Part("release-after-send", "enum", _release_after_send, exhaustive=True), Part("generated", "gen", lambda: _strategy(8), n=96)]
+                Part("release-after-send", "enum", _release_after_send, exhaustive=True),
+                Part("addresses-swapped-between-sends", "enum", _addresses_swapped_between_sends, exhaustive=True), Part("generated", "gen", lambda: _strategy(8), n=96)]
     return [Part("relay-child-stagger-sweep", "enum", _pair_sweep(25), exhaustive=True),
             Part("ids-equal-to-address-values-all-pairs", "enum", _small_ids_all_pairs, exhaustive=True),
             Part("master-side-release", "enum", _master_side_release, exhaustive=True),
             Part("only-one-parent-left", "enum", _only_one_parent_left, exhaustive=True),
             Part("nobody-but-a-level-4-node", "enum", _nobody_but_a_level4_node, exhaustive=True),
             Part("repeated-identical-lookups", "enum", lambda: _repeated_lookup(8), exhaustive=True),
-            Part("release-after-send", "enum", _release_after_send, exhaustive=True), Part("generated", "gen", lambda: _strategy(12), n=3000)]
+            Part("release-after-send", "enum", _release_after_send, exhaustive=True),
+            Part("addresses-swapped-between-sends", "enum", _addresses_swapped_between_sends, exhaustive=True), Part("generated", "gen", lambda: _strategy(12), n=3000)]
 
 
 def parts(tier):
